@@ -48,6 +48,7 @@ class Ctx(object):
         self.notes = []
         self.drawn = {}
         self.opaques = {}
+        self.extra_results = []       # obligations discharged by another engine (E1 pyvc)
 
     # ------------------------------------------------------------- inputs
     def real(self, name, lo=None, hi=None, nonzero=False, scale=1.0):
@@ -363,6 +364,11 @@ def run_symbolic(contract, config, max_paths=2000, budget_s=None, log=None):
                 status = 'ok'
         if status in ('gap', 'crash'):
             gaps.append(dict(kind=status, detail=exc_info, path=pinfo['index'], model=path_model))
+        for rec in ctx.extra_results:
+            rec = dict(rec)
+            rec.setdefault('path', pinfo['index'])
+            rec.setdefault('kind', 'vc')
+            results.append(rec)
         for ob in ctx.obligations:
             rec = dict(name=ob.name, path=pinfo['index'], kind=ob.kind)
             if ob.kind == 'concrete-true':
